@@ -1,20 +1,21 @@
 # C07 — multiplexed streams stay isolated and ordered; close never overtakes data.
-# proof: Props/C07.v (Model/Mux.v extends Model/Wakeup.v; Proofs/MuxProofs.v).  Isolation / no duplication
-# and per-transport FIFO hold for all schedules and fault patterns; the full order statement is REFUTED
-# (vm_compute witnesses inside the unpublished-wake-up window); the partial theorems cover every run without
-# that window (all streams, Proofs/MuxOrderProofs.v) and every stream that uses one transport.
+# proof: Props/C07.v (Model/Mux.v extends Model/Wakeup.v; Proofs/MuxProofs.v, Proofs/MuxOrderProofs.v).
+# Isolation / no duplication, per-transport FIFO and — after the two repairs (close through the socket in
+# fallback state; empty the queue before a socket item is handed to its stream) — the ORDER statement at
+# full strength hold for all schedules and fault patterns.  The callback-mode end-of-stream clause is
+# refuted (Model/MuxCallback.v; known finding c).
 # tie: T — real client/server session pairs, keyed messages on 2-6 streams, induced shm exhaustion,
 # generated sequential scenarios (replayed on the model, delivery sequences compared) and concurrent
-# bursts; directed replays of the three ordering races (a: public callback API, b: the instrumented
-# wakeUpPeer paused after markWorking, c: callback mode).
+# bursts; the deterministic scenarios of the two repaired races stay as regression scenarios (a: public
+# callback API, b: the instrumented wakeUpPeer paused after markWorking); c: callback mode.
 import json, os, re
 from vlib import core, gen, sched
 
 PROP = "C07"
 META = {
-    "technique": "Coq proof: invariants over all schedules x fault patterns of a two-transport multiplexing model built on the C05 wake-up model (per-transport FIFO, item validity/uniqueness, end mark last); full order statement refuted by two vm_compute witness schedules; tie: real session pairs driven by generated scenarios whose histories are replayed on the model, plus directed replays of the witness schedules on the real code",
-    "level_text": "C07_isolation and C07_transport_fifo hold for any number of streams, all programs, all exhaustion/queue-full patterns and all schedules. C07_order_full is refuted (C07_refuted; witnesses: a fallback event - or the close event of a stream in fallback state - overtakes shared-memory data whose wake-up was published by markWorking but not yet written). C07_partial_no_unpublished_wakeup_window proves order and end-mark placement for ALL streams, including those that switch from the queue to the socket, in every run that does not contain that window; C07_partial_single_transport proves them unconditionally for streams that use one transport. The former defect close-overtakes-fallback-data is repaired (close() sends the notification through the socket when the stream is in fallback state); its deterministic blocking-OnNewStream scenario stays as a regression scenario. The remaining ordering races (b: unpublished wake-up, c: callback mode) are reproduced on the real code and reported under stable signatures.",
-    "level_note": "Trusted: coqc kernel; the model treats queue.put/pop as atomic (C04) and one direction of a session at a time; one writer thread per stream; timers of waitForSend/Flush retries are not modelled; real-session scenarios are sampled; the callback-mode race (c) is outside the model (it lives in Stream.fillDataToReadBuffer's goroutine) and is demonstrated on the implementation only.",
+    "technique": "Coq proof: invariants over all schedules x fault patterns of a two-transport multiplexing model built on the C05 wake-up model (per-transport FIFO, item validity/uniqueness, end mark last, a stream only switches from the queue to the socket, a socket item is delivered only when the queue is empty); callback-mode end-of-stream clause refuted by a vm_compute witness; tie: real session pairs driven by generated scenarios whose histories are replayed on the model, plus deterministic regression scenarios of the repaired races on the real code",
+    "level_text": "C07_isolation, C07_transport_fifo and C07_order (the order / end-mark statement at full strength) hold for any number of streams, all programs, all exhaustion/queue-full patterns and all schedules, including streams that switch to the socket fallback in mid-flight and writers paused between markWorking and the write of their polling event. The two ordering races of the original code (close element overtakes fallback data; socket item overtakes data whose wake-up is published but unwritten) are repaired in /repo; their deterministic scenarios stay as regression scenarios and their former witness schedules as regression Examples. The callback-mode end-of-stream clause is refuted (C07_refuted_callback_mode) and reproduced on the real code under a stable signature (known finding).",
+    "level_note": "Trusted: coqc kernel; the model treats queue.put/pop as atomic (C04) and one direction of a session at a time; one writer thread per stream; timers of waitForSend/Flush retries are not modelled; real-session scenarios are sampled; the callback-mode clause has its own small model (Model/MuxCallback.v: fillDataToReadBuffer's goroutine and halfClose) tied to the code by the directed scenario c only.",
 }
 
 EXPECTED_RACES = ["C07:close-overtakes-fallback-data", "C07:fallback-overtakes-unpublished-wakeup",
@@ -79,7 +80,7 @@ def model_case(c, d):
             return None
         # the history log records completions: T1 (stream index 0) started first and was paused after markWorking
         progs = [["OFlush true false"], ["OFlush true false", "OFlush false false"]]
-        acts = ["AStep (WProd 0) 2", "ADo 1", "ADo 1", "AStep WCons 10", "AStep (WProd 0) 4", "AStep WCons 90"]
+        acts = ["AStep (WProd 0) 2", "ADo 1", "ADo 1", "AStep WCons 20", "AStep (WProd 0) 4", "AStep WCons 90"]
     elif kind != "sequential":
         return None
     # a reader whose own side closed the stream ends locally (and drops unread data by design): its end mark is
@@ -183,7 +184,7 @@ def check(run):
         "one writer thread per stream and direction (Stream is not safe for concurrent writers)",
         "queue.put/pop atomic at their publication points (C04); one direction of a session per model instance",
         "timeouts of waitForSend / the 10 x 10 ms retry of Flush are not modelled (a queue-full Flush is an adversary choice)",
-        "the callback-mode race (c) is demonstrated on the implementation; the model does not contain the OnData goroutine",
+        "the callback-mode clause is modelled separately (Model/MuxCallback.v) and tied to the code by the directed scenario c only",
         "real-session scenarios are sampled; the concurrent bursts depend on the Go scheduler"]
 
     def search():
